@@ -92,3 +92,8 @@ func (cx *Clients) Expire(now time.Time, ip uip.Uip, duid d.Duid) error {
 func (c *client) Uip() uip.Uip {
 	return c.ip
 }
+
+// LeasedUntil returns the time at which the lease of this client ends.
+func (c *client) LeasedUntil() time.Time {
+	return c.leasedUntil
+}
